@@ -31,7 +31,7 @@ def main():
             print("compiles:", r.returncode == 0)
             if r.returncode != 0:
                 print(r.stdout[-2000:])
-        env = dict(os.environ, LMS_REPO=dst, LMS_OUT=os.path.join(tmp, "out"))
+        env = dict(os.environ, LMS_REPO=dst, LMS_OUT=os.path.join(tmp, "out"), LMS_FACTS_DIR=os.path.join(tmp, "facts"))
         rc = 0
         for p in props:
             r = subprocess.run([os.path.join(VERIF, "check"), p] + [f for f in flags if f != "--compile"], env=env, stdout=subprocess.PIPE, stderr=subprocess.STDOUT, text=True)
